@@ -83,10 +83,11 @@ def f_nearpar(x):
 
 CONS = {
     "sphere": (1, f_sphere), "spherenj": (1, f_sphere), "torus": (1, f_torus), "plane": (1, f_plane),
-    "spherepl": (2, f_spherepl), "quartic": (1, f_quartic), "quarticg": (1, f_quarticg), "nearpar": (2, f_nearpar),
+    "spherepl": (2, f_spherepl), "isect": (2, f_spherepl), "quartic": (1, f_quartic), "quarticg": (1, f_quarticg), "nearpar": (2, f_nearpar),
 }
 # the double-root quartic has a rank-0 Jacobian on its zero set: no tangent space, Atlas chart creation throws by design
-ATLAS_OK = ["sphere", "spherenj", "torus", "plane", "spherepl", "quarticg", "nearpar"]
+# "isect" is the library's own ConstraintIntersection{sphere, plane}: the same manifold as the hand-stacked "spherepl"
+ATLAS_OK = ["sphere", "spherenj", "torus", "plane", "spherepl", "isect", "quarticg", "nearpar"]
 
 
 def resid_sq(con, x):
@@ -122,6 +123,8 @@ def header(cfg, driver=False):
     if driver:
         m = CONS[cfg["con"]][0]
         return "constrained m=%d k=%d tbfix=1 %s %s" % (m, cfg["n"] - m, base, cfg.get("aparams", ""))
+    extra = "".join(" %s=%s" % (k, v) for k, v in sorted((cfg.get("aextra") or {}).items())) if cfg["space"] != "proj" else ""
+    base = base + extra
     obs = "none" if cfg["obs"] is None else "%d:%s:%s" % (cfg["obs"][0], f2bits(cfg["obs"][1]), f2bits(cfg["obs"][2]))
     return "constrained space=%s con=%s %s seed=%d obs=%s" % (cfg["space"], cfg["con"], base, cfg["seed"], obs)
 
@@ -258,8 +261,17 @@ def gen_configs(rng, count, tier):
             ax = r.below(n)
             c = r.uniform(-0.6, 0.6)
             obs = (ax, c, c + r.choice([0.05, 0.2]))
+        aextra = None
+        if space != "proj" and r.chance(2, 5):
+            # non-default atlas parameters (lowered limits, extreme angles / radii, the other separation mode)
+            opts = {"amaxc": str(r.choice([0, 1, 3])), "aeps": f2bits(r.choice([0.005, 0.3])), "aalpha": f2bits(r.choice([0.1, 1.2])),
+                    "abackoff": f2bits(r.choice([0.5, 0.95])), "aexp": f2bits(r.choice([0.0, 0.9])),
+                    "arho": f2bits(delta * r.choice([1.5, 20.0])), "asep": "0" if space == "atlas" else "1"}
+            keys = sorted(opts)
+            r.shuffle(keys)
+            aextra = {kk: opts[kk] for kk in keys[:2]}
         cfgs.append(dict(space=space, con=con, n=n, delta=delta, lam=lam, tol=tol, maxit=maxit, lo=lo, hi=hi,
-                         seed=r.below(1000), obs=obs, tight=mode < 3, idx=k))
+                         seed=r.below(1000), obs=obs, tight=mode < 3, idx=k, aextra=aextra))
         k += 1
     return cfgs
 
@@ -275,6 +287,10 @@ def track(cur, op):
         return dict(cur, tol=bits2f(t[1]))
     if t and t[0] == "setmaxiter":
         return dict(cur, maxit=int(t[1]))
+    if t and t[0] == "setdelta":
+        return dict(cur, delta=bits2f(t[1]))
+    if t and t[0] == "setlambda":
+        return dict(cur, lam=bits2f(t[1]))
     return cur
 
 
@@ -369,6 +385,15 @@ def main_script(cfg, r, pts, tier):
     pairs.append((a, a))
     pairs.append((a, [v + cfg["delta"] * 0.3 for v in a]))      # target within delta, off the manifold
     pairs.append((pick(), rand_point(r, cfg)))                  # arbitrary (off-manifold) target
+    if cfg["con"] == "quarticg" and cfg["n"] >= 3:
+        # boundary: a pair at ambient distance *exactly* delta (and one ulp beyond): coordinate 1 is free on this manifold
+        p0 = list(pick())
+        p0[1] = 0.0
+        for dd in (cfg["delta"], math.nextafter(cfg["delta"], 1.0), math.nextafter(cfg["delta"], 0.0)):
+            q0 = list(p0)
+            q0[1] = dd
+            if cfg["lo"] <= dd <= cfg["hi"]:
+                pairs.append((p0, q0))
     for a, b in pairs:
         lines.append("geo %d %s %s" % (r.below(2), st(a), st(b)))
     # a start state off the manifold (outside the property's quantifier; Atlas / TangentBundle must refuse it untouched)
@@ -410,8 +435,19 @@ def main_script(cfg, r, pts, tier):
     # the tolerance and the iteration limit are changed *mid-script*, after charts exist and without clearing the atlas
     # (they are read from the constraint at call time by project() and by every chart's psi()): the ops are shuffled so
     # that every kind runs under the original, a tightened and a loosened tolerance.
+    for a, b in pairs[:3 * q]:
+        # the caller-owned output object aliased with an input
+        lines.append("interpo %d %s %s %s" % (r.range(1, 2), st(a), st(b), f2bits(r.choice(ts))))
     fixed, core = lines[:3], lines[3:]
     r.shuffle(core)
+    # histories: delta / lambda changed after setup and first use, the atlas cleared and re-used
+    i4 = 3 * len(core) // 4
+    nd = r.choice([d for d in ([0.05, 0.5] if cfg.get("plan") else DELTAS) if d != cfg["delta"]])
+    nl = r.choice([l for l in LAMBDAS if l != cfg["lam"]])
+    core = core[:i4] + ["setdelta " + f2bits(nd), "setlambda " + f2bits(nl)] + core[i4:]
+    if cfg["space"] != "proj":
+        i5 = 2 * len(core) // 5
+        core = core[:i5] + ["aclear"] + core[i5:]
     a3, a2, b3 = len(core) // 3, len(core) // 2, 2 * len(core) // 3
     tight, loose = tol_tight(cfg), min(cfg["tol"] * 100.0, 1e-2)
     core = (core[:a3] + ["settol " + f2bits(tight)] + core[a3:a2] + ["setmaxiter %d" % (25 if cfg["maxit"] >= 50 else 50)] +
@@ -438,7 +474,8 @@ def classify_sample(cfg, s, evs, t):
     if cfg["space"] == "proj":
         ps = [e for e in evs if e[0] == "P"]
         if ps and ps[-1][2] == "0":
-            return "project-failed"
+            # F10 as coded: what comes back is exactly the last Newton iterate of the failed projection, clamped
+            return "project-failed" if clamp(fl(ps[-1][3])) == s else "other"
         if ps:
             raw = fl(ps[-1][3])
     else:
@@ -461,6 +498,8 @@ def oracle_line(cfg, op, out):
     n, m = cfg["n"], CONS[cfg["con"]][0]
     fails = []
     t = op.split()
+    if t and t[0] == "interpo":
+        t = ["interp"] + t[2:]          # same contract whichever object receives the result
     head, tail = split_line(out)
     if not head:
         return [("crash", "no-output", "no output line for %s" % t[0])]
@@ -469,11 +508,37 @@ def oracle_line(cfg, op, out):
     if head[0] in ("params", "ok"):
         return []
     if head[0] == "exception":
-        # Atlas refuses degenerate manifolds / sampling before anchoring by throwing: not a property matter
-        return []
+        # only the documented refusals are tolerated (degenerate tangent space, sampling an atlas without charts);
+        # any other exception is reported
+        msg = head[1] if len(head) > 1 else ""
+        if any(k in msg for k in ("Cannot_compute_full-rank_tangent_space", "Initial_chart_creation_failed", "Atlas_sampled_before_any_charts")):
+            return []
+        return [("exception", "unexpected", "the library threw: %s" % msg[:160])]
     evs = parse_events(tail, n, m) if tail else []
     space = cfg["space"]
     lamdel = cfg["lam"] * cfg["delta"]
+    # the constraint function itself: every recorded Constraint::function(x) value equals the independent Python definition
+    # (this is what ties ConstraintIntersection's stacking code - and the harness' C++ formulas - to the spec)
+    nF = 0
+    for e in evs:
+        if e[0] != "F":
+            continue
+        nF += 1
+        if nF > 40:
+            break
+        x, fv = fl(e[1]), fl(e[2])
+        if not all(math.isfinite(v) for v in x):
+            continue
+        try:
+            want = CONS[cfg["con"]][1](x)
+        except (OverflowError, ValueError, ZeroDivisionError):
+            continue
+        for a_, b_ in zip(fv, want):
+            if math.isfinite(b_) and not abs(a_ - b_) <= 1e-9 * max(1.0, abs(b_)):
+                fails.append(("function", "value-mismatch", "Constraint::function returned %r where the constraint's definition gives %r" % (fv, want)))
+                break
+        if fails:
+            break
     # on-manifold clause at call granularity, with the tolerance in force now: a projection that reports success
     # (chart psi or Constraint::project) left a state within the *current* getTolerance()
     for e in evs:
@@ -614,8 +679,10 @@ def driver_lines(cfg, script, out):
 
     for li, (op, o) in enumerate(zip(script[1:], out)):
         t = op.split()
+        if t and t[0] == "interpo":
+            t = ["interp"] + t[2:]
         head, tail = split_line(o)
-        if t and t[0] in ("settol", "setmaxiter"):
+        if t and t[0] in ("settol", "setmaxiter", "setdelta", "setlambda"):
             add(op, "ok", (li, "set"))
             continue
         if not head or head[0] in ("bad-op", "exception", "ok", "params"):
@@ -938,6 +1005,13 @@ def run_config(ck, hbin, cfg, tier, script=None):
                 if satisfied(p1cfg, x) and all(cfg["lo"] <= v <= cfg["hi"] for v in x):
                     pts.append(x)
         stats["manifold_points"] = len(pts)
+        nsucc = sum(1 for o in o1 if o.startswith("ret=1"))
+        if nsucc == 0 and cfg["con"] != "quartic":
+            # 40 random starts, >= 50 Newton iterations, a well-conditioned constraint: not one projection converged
+            return dict(script=p1, out=o1, fails=[(0, "p1:project", "no-projection-succeeds",
+                        "none of %d projections from random starts converged (%s, tolerance %.3g, maxIterations %d)"
+                        % (len(o1), cfg["con"], p1cfg["tol"], p1cfg["maxit"]))] + [(i, "p1:" + a, b, w) for (i, a, b, w) in oracle_script(p1cfg, p1, o1)][:2],
+                        diffs=[], stats=stats, p1=(p1, o1, p1cfg), chart=None)
         pts_for_chart = pts
         p1pair = (p1, o1, p1cfg)
         script = main_script(cfg, r.fork("main"), pts, tier)
@@ -993,6 +1067,10 @@ def run_config(ck, hbin, cfg, tier, script=None):
         for line, exp, tag, got in zip(L, E, T, mo):
             nrep += 1
             stats["replay:" + tag[1]] = stats.get("replay:" + tag[1], 0) + 1
+            if tag[1] in ("geo", "ageo", "tgeo"):
+                ex = [x for x in got.split() if x.startswith("exit=")]
+                if ex:
+                    stats["exit:%s:%s" % (tag[1], ex[0][5:])] = stats.get("exit:%s:%s" % (tag[1], ex[0][5:]), 0) + 1
             if canon_model(got) != exp:
                 diffs.append((tag[0], tag[1], exp[:300], got[:300], sc is script))
     chart = None
